@@ -281,7 +281,7 @@ def run(ctx):
                 ctx.sample('random', {'state': enc.render(state), 'area': obsgen.area_json(area)})
             # the same monitors on a state reached through the real dynamics (doors opened in place ...), plus:
             # its observation equals the one of a freshly built equal state (opacity is a function of the state's value)
-            hstate = obsgen.history_state(rng)
+            hstate = obsgen.history_state(gen.rng_for('C06hist', ctx.seed, ctx.shard, k))
             fresh = obsgen.rebuilt(hstate)
             for name in OCCLUDING:
                 if obsgen.supported(name, area):
@@ -293,7 +293,8 @@ def run(ctx):
                         ctx.violation('occlusion', f'{name}.differs_for_equal_states',
                                       f'{name} area {obsgen.area_json(area)}: a state reached through the dynamics (e.g. a door opened '
                                       f'in place) is occluded differently from a freshly built equal state', 'occ_case',
-                                      {'state': enc.state_to_json(hstate), 'area': obsgen.area_json(area), 'fn': name})
+                                      {'state': enc.state_to_json(hstate), 'area': obsgen.area_json(area), 'fn': name,
+                                       'hist_key': [ctx.seed, ctx.shard, k]})
 
 
 def replay(ctx, kind, payload):
@@ -312,4 +313,12 @@ def replay(ctx, kind, payload):
             if any(v[i][j] and not vd[i][j] for i in range(len(v)) for j in range(len(v[0]))):
                 ctx.violation('occlusion', 'stochastic.shows_more_than_deterministic', 'replay', kind, payload)
     else:
+        if 'hist_key' in payload:  # regenerate the real history that produced the state
+            state = obsgen.history_state(gen.rng_for('C06hist', *payload['hist_key']))
+            fn = fns[(payload['fn'], area)]
+            ok1, o1 = call_real(fn, state, rng=None)
+            ok2, o2 = call_real(fn, obsgen.rebuilt(state), rng=None)
+            if ok1 and ok2 and enc.es(o1) != enc.es(o2):
+                ctx.violation('occlusion', f'{payload["fn"]}.differs_for_equal_states', 'history state occluded differently from its rebuilt copy',
+                              kind, payload)
         analyse(ctx, state, area, payload['fn'], fns[(payload['fn'], area)], 0, rng)
